@@ -13,7 +13,7 @@ pub const RULE: &str = "(specification, valid document with known-size masters o
 × one buffer capacity from {default, 16, 17, 24, 32, 64, len}, one source (slice, or reads of 1-47 bytes) and one tolerance subset without InvalidTagIds (strict in half of the cases) × EVERY position between two consecutive tags as insertion point (exhaustive per document: after a leaf, after a master header, after the last child of a master when a sibling follows) + one junk run at a random non-boundary position. \
 From the reference encoder's layout the harness decides whether the precondition holds (the tag following the junk still fits every enclosing known-size master after the shift). Precondition true: items before the junk equal the undamaged parse (same offsets), \
 exactly one error, try_recover() is Ok, the remaining items equal the rest of the undamaged parse (non-End offsets shifted by the junk length, Ends of masters opened before the junk unchanged), then None. \
-Every case: try_recover never panics, fails only with UnexpectedEOF / ReadError, never moves backwards. One evaluation per (document, insertion point). Non-trivial: precondition true with the following tag at depth >= 2; distinct by (document, position, junk).";
+Every case: try_recover never panics, fails only with UnexpectedEOF / ReadError, never moves backwards. One case in four reads (damaged and undamaged alike) with end-of-stream closing off. One evaluation per (document, insertion point). Non-trivial: precondition true with the following tag at depth >= 2; distinct by (document, position, junk).";
 
 pub const ASSUMPTIONS: &[&str] = &[
     "junk bytes are chosen so that no junk position can begin a specification-valid tag whatever follows (their value is not the first byte of any declared id)",
